@@ -134,18 +134,14 @@ hypothesis; `ChainBound` derived, not assumed) and `toric_mwpm_corrects_all_size
 proved theorems of those properties (d = min R C for every R, C ≥ 2) — all for ANY minimum-weight
 perfect matchings.
 
-STATED, NOT PROVED (the one remaining hypothesis of the `…_all_sizes` theorems):
+NOW PROVED ELSEWHERE (kept here as a pointer): the bridge from C13 to the `MinWeightPM` /
+`MinWeightPMPlanar` hypothesis of the `…_all_sizes` theorems is `Props/C14/Bridge.lean`
+(`bridge_planar`, `bridge_toric`, `planar_mwpm_corrects_networkx`, `toric_mwpm_corrects_networkx`):
+under `NxContract oracle` ALONE every error with |X|,|Z| ≤ t is corrected, for all sizes, and the
+contract is satisfiable (`exact_matcher_meets_contract`).
 
-  * h_min… from C13: `MinWeightPM` / `MinWeightPMPlanar` for the matching returned by
-    `mwpmNetworkx oracle` on the graph built from `toricWeightedEdges` / `planarWeightedEdges` follows
-    from `C13.mwpmNetworkx_min_weight_perfect` under `NxContract` (the external networkx contract),
-    through the driver's encoding of plaquette indices as graph nodes (C13 speaks of `IsPM` /
-    `weightBy` over `Node` with `Rat` weights, C14 of `isPerfectMatchingOfGraph` / `cost` over index
-    pairs with `Nat` weights); that translation is not formalised:
-      ∀ oracle, NxContract oracle → ∀ R C ≥ 2, ∀ ds,
-        MinWeightPMPlanar R C t ds (decode (mwpmNetworkx oracle (encode (planarWeightedEdges R C t ds))))
-  Meanwhile the harness sweeps every error with |X|,|Z| ≤ t for all sizes ≤ 5×5
-  (4×5 and smaller exhaustively; see harness/qv/props/c14.py).
+STATED, NOT PROVED: that the real networkx routine meets `NxContract` (external code; tested against
+the verified optimum on every run by the C13 harness); the Blossom V backend (absent in this sandbox).
 -/
 
 /-! ### non-vacuity -/
